@@ -24,7 +24,7 @@ impl Check for C01 {
         parse_case_strategy_la(tier_params(tier, GenParams::ll()), false, 12)
     }
     fn cases(&self, tier: Tier) -> u32 {
-        tier.pick(8000, 200000)
+        tier.pick(16000, 400000)
     }
     fn assumptions(&self) -> Vec<String> {
         vec![
